@@ -235,10 +235,82 @@ pub fn run(ctx: &mut Ctx) -> (&'static str, String, bool) {
         }
         ctx.merge(p);
     }
+    // ---- tokio: the read that is writing a reply is dropped and re-issued (select-loop schedule) ------
+    // the reply must still appear exactly once and the keep-alive must still reach the caller
+    {
+        use std::collections::BTreeSet;
+
+        use super::c19::{run_session, Session};
+        let mut jobs = vec![];
+        for compressed in MODES {
+            let k = reply_frame(compressed);
+            let ping = [k[0], 3, 9, 3];
+            for (label, stream) in [("ka", k.to_vec()), ("ping-ka-ping", [&ping[..], &k[..], &ping[..]].concat()), ("ka-ka-ping", [&k[..], &k[..], &ping[..]].concat())] {
+                for (wp, wk) in [(1usize, 1usize), (1, 3), (2, 2), (0, 0)] {
+                    jobs.push((compressed, label, stream.clone(), wp, wk));
+                }
+            }
+        }
+        let parts: Vec<Part> = jobs
+            .par_iter()
+            .enumerate()
+            .map(|(ji, (compressed, label, stream, wp, wk))| {
+                let rt = runtime();
+                let _g = rt.enter();
+                let mut p = Part::new();
+                if miri && (ji as u64 % nshards != shard || ji >= 8) {
+                    return p;
+                }
+                let mut wplan = vec![];
+                for _ in 0..32 {
+                    for _ in 0..*wp {
+                        wplan.push(WAct::Pending);
+                    }
+                    wplan.push(WAct::Accept(if *wk == 0 { usize::MAX } else { *wk }));
+                }
+                let base = Session { compressed: *compressed, stream: stream.clone(), read_plan: vec![RAct::Pending], default_read: 0, write_plan: wplan, default_write: 0, drops: BTreeSet::new(), write_after_drop: false, label: format!("{label}-w{wp}x{wk}") };
+                let total = run_session(&base).polls;
+                let (frames, _) = ref_frames(stream, *compressed);
+                let kas = frames.iter().filter(|f| is_keepalive_frame(f)).count();
+                let mut plans: Vec<BTreeSet<usize>> = (1..=total + 1).map(|k| BTreeSet::from([k])).collect();
+                plans.push((1..=total + 40).collect()); // dropped after every Pending poll
+                for drops in plans {
+                    let mut s = base.clone();
+                    s.drops = drops;
+                    let o = run_session(&s);
+                    p.evaluations += 1;
+                    p.distinct(&(compressed, &s.label, &s.drops));
+                    let handed = o.results.iter().filter(|r| matches!(r, ReadResult::Packet(d) if d.contains("subt: None") && d.contains("RequestId(0)"))).count();
+                    let (out_frames, rest) = ref_frames(&o.written, *compressed);
+                    let replies = out_frames.iter().filter(|f| is_keepalive_frame(f)).count();
+                    let replay = json!({"mode": mode_name(*compressed), "label": s.label, "stream": hex(stream), "drops": s.drops.iter().take(64).collect::<Vec<_>>(), "outgoing": hex(&o.written), "suspended_on": o.suspended_on});
+                    if o.runaway {
+                        p.violation("C07/tokio/cancelled-read/runaway", format!("[{}] session did not finish after the read was dropped", s.label), replay);
+                    } else if !rest.is_empty() || replies != kas || out_frames.len() != replies {
+                        p.violation(
+                            "C07/tokio/cancelled-read/reply-count",
+                            format!("{} [{}]: {kas} keep-alive(s) received, read dropped after poll(s) {:?}: outgoing bytes {} hold {replies} whole reply frame(s) and {} stray byte(s)", mode_name(*compressed), s.label, s.drops.iter().take(8).collect::<Vec<_>>(), hex(&o.written), rest.len()),
+                            replay,
+                        );
+                    } else if handed != kas {
+                        p.violation(
+                            "C07/tokio/cancelled-read/keepalive-not-handed-over",
+                            format!("{} [{}]: {kas} keep-alive(s) received and answered but {handed} handed to the caller after the read was dropped after poll(s) {:?}", mode_name(*compressed), s.label, s.drops.iter().take(8).collect::<Vec<_>>()),
+                            replay,
+                        );
+                    }
+                }
+                p
+            })
+            .collect();
+        for p in parts {
+            ctx.merge(p);
+        }
+    }
     ctx.assume("a keep-alive is the 4-byte frame type 3, ReqI 0, SubT 0; the reply is observed as bytes accepted by the scripted transport between two consecutive read returns");
     (
         "exploration",
-        "every TINY sub-type byte 0..255 x ReqI 0..255 as a history ping/X/ping (exhaustive) x {blocking,tokio} x both modes with the reply written in 1- and 2-byte pieces; random histories of 1..200 frames mixing keep-alives, near-misses and every other kind under hostile read segmentation, short/Pending writes and verify_version on/off; every kind directly before/after keep-alives; distinct = distinct histories".into(),
+        "every TINY sub-type byte 0..255 x ReqI 0..255 as a history ping/X/ping (exhaustive) x {blocking,tokio} x both modes with the reply written in 1- and 2-byte pieces; random histories of 1..200 frames mixing keep-alives, near-misses and every other kind under hostile read segmentation, short/Pending writes and verify_version on/off; every kind directly before/after keep-alives; tokio: short keep-alive histories with the read future dropped after every single poll and after all Pending polls while the reply is written in pieces; distinct = distinct histories".into(),
         true,
     )
 }
